@@ -25,6 +25,7 @@ CONSTANTS
   AdvMsgs <- AdvSet
   MaxAdv = 2
   Bridgers = {}
+  SplitFlush = FALSE
   MaxNow = 0
   MaxHandles = 2
   MaxCtr = 1
